@@ -526,8 +526,37 @@ class Library:
                 return sor(*[v for _, v in ents]) if ents else False
             return a
 
-        def np_allclose(a, b, rtol=Fraction(1, 100000), atol=Fraction(1, 10**8)):
-            raise OutOfReach("np.allclose is decided only on concrete data (bounded stand-in)")
+        def np_allclose(a, b, rtol=Fraction(1, 100000), atol=Fraction(1, 10**8), **kw):
+            """|a - b| <= atol + rtol |b| for all entries (concrete-shape real data only)."""
+            def flat(x):
+                if isinstance(x, ix.IArr):
+                    if x.quat or x.cplx or x.hcell:
+                        raise OutOfReach("np.allclose on non-real symbolic arrays")
+                    return [v for _, v in x.concrete_entries()]
+                if isinstance(x, (list, tuple)):
+                    out = []
+                    for y in x:
+                        out += flat(y)
+                    return out
+                if is_reallike(x):
+                    return [x]
+                raise OutOfReach("np.allclose operand")
+            fa, fb = flat(a), flat(b)
+            if len(fb) == 1:
+                fb = fb * len(fa)
+            if len(fa) != len(fb):
+                raise OutOfReach("np.allclose broadcasting")
+            return sand(*[abs(x - y) <= atol + rtol * abs(y) for x, y in zip(fa, fb)]) if fa else True
+
+        def np_mean(a):
+            if isinstance(a, ElemSq):
+                return a.mean()
+            raise OutOfReach("np.mean form")
+
+        def np_clip(a, lo, hi):
+            if isinstance(a, ix.IArr):
+                return a.map(lambda x: ix.ite(x < lo, lo, ix.ite(x > hi, hi, x)))
+            raise OutOfReach("np.clip form")
 
         def np_block(rows):
             """np.block of a nested list [[B00, B01, ...], [B10, ...]] of 2-D index-level arrays."""
@@ -566,16 +595,6 @@ class Library:
                             res = ix.ite(sand(p_ < roff[a + 1], q_ < coff[b + 1], q_ >= coff[b]) if b else sand(p_ < roff[a + 1], q_ < coff[1]), v, res)
                 return res
             return ix.IArr.from_fn([roff[-1], coff[-1]], fn, cplx=cp)
-
-        def np_mean(a):
-            if isinstance(a, ElemSq):
-                return a.mean()
-            raise OutOfReach("np.mean form")
-
-        def np_clip(a, lo, hi):
-            if isinstance(a, ix.IArr):
-                return a.map(lambda x: ix.ite(x < lo, lo, ix.ite(x > hi, hi, x)))
-            raise OutOfReach("np.clip form")
 
         def np_isclose(a, b, rtol=Fraction(1, 10**5), atol=Fraction(1, 10**8), **kw):
             if is_reallike(a) and is_reallike(b):
